@@ -27,6 +27,9 @@ CLAIMED = {
  "C19": ("Coq proofs over driver skeletons and main() wiring REGENERATED from the source by a go/ast translator (reflective check by vm_compute over the finite skeleton data, induction over conversations) + fault enumeration on the real process against an independent reference AMF",
          "Theorems in coq/Properties/C19.v: every conn.Write/conn.Read/ngap.Decoder result in every procedure driver reaches ManageError (except the decode after Registration Complete) — checked reflectively on the skeletons extracted from the current source; hence for every assignment of the five repetition counts and every uplink message index after which the emulator still does I/O, a closed association stops the run with exit status 1 before the end of the conversation (no banner), in a number of steps bounded by its length; an undecodable reply that is consumed with a checked decode does the same (with any number of still-queued downlink messages). Each run builds main() with the verif hook, runs it against the Python reference AMF over a socketpair and injects close / garbage at EVERY uplink index of two (thorough: four) conversations, comparing exit status, banner and time-to-exit with the model's prediction.",
          "PARTIAL: bounded time is proved as bounded steps, wall-clock is measured. Coq kernel + vm_compute; go/ast translator harness/gen_driver.go; abstract semantics of a closed/garbled association (OS socket behaviour observed, not proved); Python reference AMF with a frozen golden NGAP schema.", "DESIGN.md §7 C19"),
+ "C18": ("Coq proofs over struct tags (reflection) and main() wiring (go/ast) REGENERATED from the source: reflective conformance check against the documented key table + generic lemma 'conformance implies every call receives the file's value'; mode table for all argv; differential runs of GetConfiguration and of the process",
+         "Theorems in coq/Properties/C18.v: the 24 yaml tags are exactly the documented keys on fields of the documented kind and every call site in both modes passes the documented field in the documented position (reflective over the data extracted from the current source); hence for ANY configuration file and every documented key, every call of every consuming procedure receives exactly the value in the file; the UE count and the five repetition counts bound the documented loops; mode = traffic iff no argument, test iff exactly -t, none otherwise, for every argv. Each run loads 200 random configuration files (keys in any order, leading zeros, extreme integers, absent keys) through the real GetConfiguration and checks end to end (file value = field main() passes to the consumer / loop bound); runs the real binary on every argv vector of length 0..2 (thorough: 0..3) over a 5-word alphabet; and runs 3 (12) random configurations against the reference AMF, which verifies gNB id/bit length/name, PLMN, SUCI, keys (RES*), GTP address and S-NSSAI on the wire.",
+         "Coq kernel + vm_compute; translators gen-conftags (reflect) and gen-mainwiring (go/ast); documentation transcribed by hand from README.md/config.yaml; YAML scalar syntax is yaml.v2's (modelled, tied by the stream); Python reference AMF.", "DESIGN.md §7 C18"),
 }
 PENDING_REASON = "check not built yet in this round (work in progress; see DESIGN.md §7 for the planned proof)"
 
